@@ -172,11 +172,24 @@ def peer_caps(rng, cfg, full=False):
         caps.append(rp.cap_rr_cisco())
     if full or rng.chance(0.6) or cfg["remote_as"] > 65535:
         caps.append(rp.cap_as4(cfg["remote_as"]))
+    if rng.chance(cfg.get("p_extra_family", 0.15)):
+        # a further address family, possibly one yabgp has no name for (legal: RFC 4760 capability per family)
+        caps.append(rp.cap_mp(*rng.pick([(2, 1), (2, 2), (1, 2), (2, 128), (25, 70), (1, 4), (16388, 71)])))
     if rng.chance(0.2):
         caps.append(rp.cap_gr(120))
     if rng.chance(0.2):
         caps.append(rp.cap_err())
     return caps
+
+
+def remote_families():
+    """Generator-side peek: the <AFI,SAFI> pairs the agent currently believes the peer advertised."""
+    try:
+        from oslo_config import cfg as ocfg
+        fams = ocfg.CONF.bgp.running_config["capability"]["remote"].get("afi_safi") or []
+        return [(int(a), int(b)) for a, b in fams]
+    except Exception:
+        return []
 
 
 def gen_open(rng, cfg, variant="valid", hold=None):
